@@ -5,8 +5,9 @@
    findExternal), wholeModule, resolve_type / resolve_td (Type.resolve / Typedef.resolve on fuel, with the
    `resolving` marks), process (resolveTypedefs + every leaf).
    Spec/C09.v: binds, in_whole, chain, chain_type, reaches/cyclic. *)
-From Coq Require Import Ascii String List Bool Arith NArith Lia.
-From GY Require Import Base.Outcome Model.Types Spec.C09 Proofs.TypesProofs.
+From Coq Require Import Ascii String List Bool Arith NArith ZArith Lia.
+From GY Require Import Base.Outcome Model.Number Model.Range Model.Types Spec.C15 Spec.C10 Spec.C09 Proofs.RangeProofs
+  Proofs.TypesProofs.
 Import ListNotations.
 Local Open Scope string_scope.
 Local Open Scope list_scope.
@@ -104,21 +105,93 @@ Theorem C09_member_error : forall S fuel st t u,
   In u (t_members t) -> resolve_type S fuel st u = Err -> forall y, resolve_type S fuel st t <> Ok y.
 Proof. exact resolve_member_err. Qed.
 
-(* converse of T2, PARTIAL: a reference whose chain reaches a built-in type, whose type statements pass the local
-   checks (fraction-digits exactly at decimal64 and in 1..18, identityref base, no repeated enum/bit names) and list
-   no union member types, resolves: for such references errors arise only from the causes T3 names.
-   Missing: chains whose links list union member types. *)
-Theorem C09_resolves_partial : forall S fuel st t tds k,
+(* converse of T2 (full): a resolvable reference -- name built in or bound to a typedef whose own type is resolvable,
+   local checks passed (fraction-digits exactly at decimal64 and in 1..18, identityref base, no repeated enum/bit
+   names), every listed union member type resolvable, recursively -- resolves, to a type of its base kind *)
+Theorem C09_resolves : forall S fuel st t k,
+  count_typedefs S < fuel -> resolvable S st t k ->
+  exists y, resolve_type S fuel st t = Ok y /\ y_kind y = k.
+Proof. exact resolve_complete. Qed.
+
+Theorem C09_resolved_is_resolvable : forall S fuel st t y,
+  resolve_type S fuel st t = Ok y -> resolvable S st t (y_kind y).
+Proof. exact resolve_ok_resolvable. Qed.
+
+Theorem C09_ok_iff : forall S fuel st t,
   count_typedefs S < fuel ->
-  lchain S st t tds k ->
-  Forall (fun l => t_members (snd l) = []) (links st t tds) ->
-  links_ok k (map snd (links st t tds)) ->
-  exists y, resolve_type S fuel st t = Ok y.
-Proof. exact resolve_complete_partial. Qed.
+  ((exists y, resolve_type S fuel st t = Ok y) <-> exists k, resolvable S st t k).
+Proof. exact resolve_ok_iff. Qed.
+
+(* resolvable, read along the whole chain: a chain of bound typedefs down to the built-in kind, every type statement
+   of it locally well formed, every union member of every type statement resolvable *)
+Theorem C09_resolvable_chain : forall S st t k,
+  resolvable S st t k <->
+  exists tds, lchain S st t tds k /\ links_ok k (map snd (links st t tds)) /\
+              forall l, In l (links st t tds) -> forall u, In u (t_members (snd l)) ->
+                        exists k', resolvable S (fst l) u k'.
+Proof. exact resolvable_chain. Qed.
+
+(* T2 + T3 together: the resolver reports an error exactly when there is no finite chain of bound typedefs down to a
+   built-in type, or a type statement of the chain fails a local check, or a union member of a type statement of the
+   chain is itself an error *)
+Theorem C09_error_iff : forall S fuel st t,
+  count_typedefs S < fuel ->
+  (resolve_type S fuel st t = Err <->
+   (forall tds k, ~ lchain S st t tds k) \/
+   exists tds k, lchain S st t tds k /\
+     (~ links_ok k (map snd (links st t tds)) \/
+      exists l u, In l (links st t tds) /\ In u (t_members (snd l)) /\ resolve_type S fuel (fst l) u = Err)).
+Proof. exact resolve_error_causes. Qed.
+
+(* ... and there is no such chain exactly when following the bindings from the reference ends at a name that binds
+   nothing (unknown name, unknown prefix, not visible) or meets a typedef that is based on itself *)
+Theorem C09_no_chain_iff : forall S st t,
+  (forall tds k, ~ lchain S st t tds k) <->
+  (lookup_type S st (t_name t) = LNone \/
+   (exists key td, reaches S st t key td /\ lookup_type S (site_of key) (t_name (td_type td)) = LNone) \/
+   (exists key td, reaches S st t key td /\ cyclic S key td)).
+Proof. exact no_chain_causes. Qed.
+
+Theorem C09_error_iff_unresolvable : forall S fuel st t,
+  count_typedefs S < fuel ->
+  (resolve_type S fuel st t = Err <-> ~ exists k, resolvable S st t k).
+Proof. exact resolve_error_iff. Qed.
+
+(* a verdict reached without running out of fuel is the verdict for every larger fuel *)
+Theorem C09_fuel_stable : forall S f1 f2 st t r,
+  f1 <= f2 -> resolve_type S f1 st t = r -> r <> Unmodelled -> resolve_type S f2 st t = r.
+Proof. exact resolve_type_stable. Qed.
 
 (* a chain to a built-in type never meets a typedef twice *)
 Theorem C09_chain_acyclic : forall S st t tds k, lchain S st t tds k -> NoDup (map fst tds).
 Proof. exact lchain_nodup. Qed.
+
+(* ------------------------------------------------------------------ resolved ranges of integer types (C09 x C10) *)
+
+(* range_of composes C10's parseChildRanges along the chain of T2, from the built-in range of the base kind outward
+   over the range statements of the chain's type statements; whatever it returns is derived (C10) from the built-in
+   range: well formed, non-empty, within the built-in range -- and each step within its parent (C10_parseChildRanges) *)
+Theorem C09_range_composition : forall S st t r,
+  range_of S st t = Ok (Some r) ->
+  exists tds k,
+    lchain S st t tds k /\ int_bounds k <> None /\
+    apply_ranges (base_range k) (chain_range_texts t (map snd tds)) = Ok r /\
+    derived 0 false (base_range k) r /\
+    WF r /\ r <> [] /\ subset (den r) (den (base_range k)).
+Proof. exact range_of_spec. Qed.
+
+Theorem C09_range_defined : forall S st t tds k,
+  lchain S st t tds k -> int_bounds k <> None ->
+  range_of S st t = (r <- apply_ranges (base_range k) (chain_range_texts t (map snd tds)) ;; Ok (Some r)).
+Proof. exact range_of_defined. Qed.
+
+Theorem C09_range_no_panic : forall S st t, range_of S st t <> Panic.
+Proof. exact range_of_no_panic. Qed.
+
+(* the opaque range text of the resolved type (nearest range statement, T2) is the last text range_of applies *)
+Theorem C09_range_text_is_last : forall k t tds mss,
+  y_range (chain_type k t tds mss) = hd_error (rev (chain_range_texts t tds)).
+Proof. exact range_text_is_last. Qed.
 
 (* ------------------------------------------------------------------ T3 (termination) / T4 (totality) *)
 
@@ -233,7 +306,7 @@ Qed.
 Example C09_ex_whole : wholeModule ex_S 1 = [1; 0] /\ wholeModule ex_S 0 = [0; 1] /\ wholeModule ex_S 2 = [2].
 Proof. vm_compute. auto. Qed.
 
-(* the hypotheses of C09_resolves_partial are satisfiable: leaf l's chain  t0 (inner) -> t1 -> t0 (top) -> int8 *)
+(* chains exist: leaf l's chain  t0 (inner) -> t1 -> t0 (top) -> int8 *)
 Example C09_ex_lchain :
   exists tds, lchain ex_S (0, [0; 0]) (rf "t0") tds Yint8 /\ map fst tds = [(0, [0], "t0"); (0, [], "t1"); (0, [], "t0")] /\
               Forall (fun l => t_members (snd l) = []) (links (0, [0; 0]) (rf "t0") tds) /\
@@ -268,4 +341,38 @@ Example C09_ex_pinned_revision :
   = Ok (YT "id" Ystring "2020-01-01" "" false 0 None None [] None None "" None []) /\
   resolve_type (rev ex_R) (resolve_fuel ex_R) (0, []) (rf "l:id")
   = Ok (YT "id" Yuint32 "2021-01-01" "" false 0 None None [] None None "" None []).
+Proof. vm_compute. auto. Qed.
+
+(* resolvable is inhabited, union members included: type union { type t0; type string { pattern "a"; } } in the
+   innermost scope of m0 *)
+Example C09_ex_resolvable :
+  resolvable ex_S (0, [0; 0])
+    (TRef "union" None None None [] [] [] None None [rf "t0"; rpat "string" ["a"]]) Yunion.
+Proof.
+  assert (L : forall k n ps, k <> Ydecimal64 -> k <> Yidentityref -> forall b ms,
+                link_ok k b (TRef n None None None ps [] [] None None ms)).
+  { intros k n ps Hd Hi b ms. unfold link_ok. cbn [t_fd t_enums t_bits t_idbase nodup_names].
+    destruct (kind_eqb k Ydecimal64) eqn:E; [exfalso; apply Hd; apply kind_eqb_eq; exact E|].
+    rewrite andb_false_r. repeat split; try reflexivity. intros _ Hk. contradiction. }
+  apply RS_base; [vm_compute; reflexivity | apply L; discriminate |].
+  intros u [Hu | [Hu | []]]; subst u.
+  - exists Yint8. eapply RS_step; [vm_compute; reflexivity | | apply L; discriminate | intros u []].
+    eapply RS_step; [vm_compute; reflexivity | | apply L; discriminate | intros u []].
+    eapply RS_step; [vm_compute; reflexivity | | apply L; discriminate | intros u []].
+    apply RS_base; [vm_compute; reflexivity | apply L; discriminate | intros u []].
+  - exists Ystring. apply RS_base; [vm_compute; reflexivity | apply L; discriminate | intros u []].
+Qed.
+
+(* typedef r1 { type int8 { range "1..100"; } }  typedef r2 { type r1 { range "min..50 | 60..max"; } }
+   leaf x { type r2 { range "10..20|70"; } }: each range within its parent; widening is an error *)
+Definition rrg (n : string) (r : string) : tref := TRef n None (Some r) None [] [] [] None None [].
+Definition ex_G : schema :=
+  [{| m_name := "g"; m_sub := false; m_rev := ""; m_prefix := "g"; m_belongs := ""; m_imports := []; m_includes := [];
+      m_top := Scope [tdf "r1" (rrg "int8" "1..100") None None; tdf "r2" (rrg "r1" "min..50 | 60..max") None None]
+                     [] [lf "x" (rrg "r2" "10..20|70"); lf "bad" (rrg "r2" "10..55")] |}].
+Example C09_ex_range :
+  range_of ex_G (0, []) (rrg "r2" "10..20|70") = Ok (Some [(FromInt 10, FromInt 20); (FromInt 70, FromInt 70)]) /\
+  range_of ex_G (0, []) (rf "r2") = Ok (Some [(FromInt 1, FromInt 50); (FromInt 60, FromInt 100)]) /\
+  range_of ex_G (0, []) (rrg "r2" "10..55") = Err /\
+  any_range_error ex_G = true.
 Proof. vm_compute. auto. Qed.
